@@ -429,6 +429,8 @@ def discharge(ob, budget=None):
                 break
             notes.append("polyid: %s" % info)
         elif be == "cvc5":
+            if not budget.get("cvc5_s", 20):
+                continue
             v, dt, info = cvc5_prove(ob, budget.get("cvc5_s", 20))
             total += dt
             if v == "proved":
